@@ -192,6 +192,22 @@ def q1(prog, rep):
 
 
 # ----------------------------------------------------------------------------------------------
+def widened_mul(body, roots, dest):
+    """`u128::from(<u64 parameter>) * <constant < 2^32>`: exact, cannot overflow."""
+    from facts import place_local
+    ty = body.locals[place_local(dest)]
+    if not (ty == "u128" or ty.startswith("(u128,")):
+        return False
+    consts = [r for r in roots if re.fullmatch(r"const\(\d+\)", r)]
+    params = [r for r in roots if not r.startswith("const(")]
+    if len(consts) != 1 or len(params) != 1 or int(consts[0][6:-1]) >= 2 ** 32:
+        return False
+    for i in range(1, body.argc + 1):
+        if (body.dbg_name(str(i)) == params[0]) and body.locals[i] == "u64":
+            return True
+    return False
+
+
 def q2(prog, rep):
     fn = BV + "does_commit_voting_power_have_quorum"
     for body in prog.bodies_of(fn) or []:
@@ -210,6 +226,9 @@ def q2(prog, rep):
         for kind, name, bb, line, roots, dest in arith_sites(body):
             n += 1
             key = f"{short_name(fn)}|{name}({','.join(trunc(r, 30) for r in roots)})"
+            if kind == "raw" and name.startswith("Mul") and widened_mul(body, roots, dest):
+                rep.ok("Q2", key, "u64 widened to u128 times a small constant: cannot overflow")
+                continue
             if kind in ("saturating", "wrapping", "raw", "unchecked"):
                 # a saturated product can turn a too-small commit into "quorum"
                 # (saturating_mul(3) of committed vs saturating_mul(2) of total both clamp)
